@@ -200,7 +200,10 @@ def cl_new_list(eng, items, st):
 
 def cl_getattr(eng, obj, name, st, node):
     if obj.k == 'seq' and obj.extra.get('elist') and name == 'append':
-        return [(st, V('func', py=('spec', lambda eng, a, kw, st, node: [(st, NONE)])))]
+        def eapp(eng, a, kw, st, node):
+            st.trace.append(('elist-append', a[0]))
+            return [(st, NONE)]
+        return [(st, V('func', py=('spec', eapp)))]
     if obj.k == 'ref' and obj.cls == 'CBuf' and name == 'append':
         def app(eng, args, kwargs, st, node, _o=obj):
             st.trace.append(('res-append' if _o.extra['res'] else 'clump-append', _o, args[0]))
@@ -224,7 +227,28 @@ def cl_remember(eng, st):
 
 
 def cl_first(c, L):
-    return z3.BoolVal(True)
+    # pass i of the sizing loop enters (size of element i, element i) - every element, once, in order
+    ev = cl_since(c.trace, 0)
+    if not ev:
+        return z3.BoolVal(True)
+    ev = [e for e in ev if e[0] == 'elist-append']
+    if len(ev) != 1 or ev[0][1].k != 'tuple' or len(ev[0][1].items) != 2 or ev[0][1].items[0].k != 'int' \
+            or ev[0][1].items[1].k != 'any':
+        return z3.BoolVal(False)
+    return ev[0][1].items[1].z == EL_VAL(L.i - 1)
+
+
+def over_elements(c, sq, k, elem):
+    if elem.k != 'any':
+        return z3.BoolVal(False), z3.BoolVal(False)
+    return sq.extra['len'] == NEL, elem.z == EL_VAL(k)
+
+
+def over_elist(c, sq, k, elem):
+    ok = elem.k == 'tuple' and len(elem.items) == 2 and elem.items[0].k == 'int' and elem.items[1].k == 'any'
+    if not ok:
+        return z3.BoolVal(False), z3.BoolVal(False)
+    return sq.extra['len'] == NEL, z3.And(elem.items[0].z == EL_SIZE(k), elem.items[1].z == EL_VAL(k))
 
 
 def cl_pass(c, L):
@@ -264,13 +288,14 @@ contract(F, 'NetAddr._clump_bundle', props=('C06',),
          requires=lambda c: z3.And(c.size > 20, NEL >= 0, z3.ForAll([z3.Int('k')], EL_SIZE(z3.Int('k')) >= 0)),
          raises={'ValueError': None, 'TypeError': None, 'IndexError': None},
          ensures=[],
-         loops={0: _CLoop(inv=cl_first, kinds={'e': 'any'}),
-                1: _CLoop(inv=cl_pass, kinds={'acc_size': 'int', 's': 'int', 'e': 'any', 'clump': clump_kind},
+         loops={0: _CLoop(inv=cl_first, over=over_elements, kinds={'e': 'any'}),
+                1: _CLoop(inv=cl_pass, over=over_elist, kinds={'acc_size': 'int', 's': 'int', 'e': 'any', 'clump': clump_kind},
                           havoc_hook=cl_remember)},
          fields={'NetAddr': {}, 'CBuf': {}},
          hooks={'new_list': cl_new_list, 'getattr': cl_getattr},
          policies={'NetAddr._calc_msg_dgram_size': (lambda eng, selfv, args, kwargs, st, node: [(st, vint(eng.fresh('sz', z3.IntSort())))]),
                    'NetAddr._calc_bndl_dgram_size': (lambda eng, selfv, args, kwargs, st, node: [(st, vint(eng.fresh('sz', z3.IntSort())))])},
          class_modules={'NetAddr': F, 'CBuf': F}, native=False,
-         note='the first loop (sizing every element through the sizing functions, proved above) is executed with the '
-              'element list abstracted to (size_i, element_i); sizes are non-negative')
+         note='the first loop (sizing every element through the sizing functions, proved above) enters (size_i, '
+              'element_i) for EVERY element in order (its own obligations); the list it builds is then the abstract '
+              'sequence of those pairs, with size_i naming whatever the sizing function returned; sizes non-negative')
